@@ -10,7 +10,9 @@ RULE = ("histories mixing SYN floods (all flag words), wrong-ack data, FIN/RST/A
         "with the model's table and with the specification's count of validated flows; non-trivial = history contains "
         "at least one TCP frame")
 TRUSTED = ["Coq 8.16.1 kernel + vm_compute", "extraction (ExtrOcamlBasic) + ocaml/model_run.ml", "harness/*.py",
-           "Rust hooks verif_driver.rs / tcb::verif_len", "pnet accessor semantics as modelled"]
+           "Rust hooks verif_driver.rs / tcb::verif_len", "pnet accessor semantics as modelled",
+           "harness/shim/clockshim.c + the dynamic linker's symbol interposition (time-gap variants of the histories; only the "
+           "search for time-dependent failures relies on it, the theorems of Properties/ClockIndep.v do not)"]
 ASSUMPTIONS = ["the table is a list keyed by the 32-bit cookie (as in the implementation); 'distinct flows' are counted "
                "as distinct cookies, which coincide with distinct 4-tuples except on a cookie collision (C08 known finding)"]
 
